@@ -213,6 +213,10 @@ fn exec_typed<T: Elem + Clone + Default, N: ArrayLength>(case: &Case, acc: &mut 
         }
         Op::CollectShort(_) | Op::CollectLong | Op::BoxedCollectShort(_) | Op::BoxedCollectLong | Op::TryFromVecWrongLen => {
             drop(arr);
+            if n == 0 && matches!(case.op, Op::CollectShort(_) | Op::BoxedCollectShort(_)) {
+                // there is no source shorter than an empty one: not a case of this operation
+                return Ok(());
+            }
             let c = match case.op {
                 Op::CollectShort(c) | Op::BoxedCollectShort(c) => c.min(n.saturating_sub(1)),
                 Op::TryFromVecWrongLen => n + 1,
